@@ -23,13 +23,18 @@ RULE = ('(a) synthetic pairs of force fields: 1-4 residue types, from-blocks of 
         'sorted or shuffled, residue numbers with gaps. (b) charmm peptides (1-6 residues, termini modifications) '
         'through RepairGraph + CanonicalizeModifications and the shipped charmm->martini3001/martini22/elnedyn22 '
         'mappings, checked with invariants only. Non-trivial = >= 2 placements and >= 1 inter-placement input bond. '
-        'distinct = distinct (force fields, molecule) hashes. Also: two-residue (multi-residue) mappings whose pattern and target block span a bonded pair of residues that have no mapping of their own; atoms renamed upstream that are matched on _old_atomname.')
+        'distinct = distinct (force fields, molecule) hashes. Also: two-residue (multi-residue) mappings whose pattern and target block span a bonded pair of residues that have no mapping of their own; atoms renamed upstream that are matched on _old_atomname; residues that share their number and differ in the insertion code.')
 ASSUMPTIONS = ['when placements overlap or tie on their lowest key the order/attributes are ambiguous: only counts and the '
                'inconsistent-data warning are checked',
                'no demand on attributes other than atomname, resname, resid, _old_resid, graph, mapping_weights',
                'modification mappings are only covered by the invariants of part (b)']
 MIN_HITS = {'quick': 3500, 'thorough': 70000}
 CASE_TIMEOUT = 900
+
+
+def res_id(mol, n):
+    d = mol.nodes[n]
+    return (d['resid'], d.get('insertion_code') or '')
 
 
 def gen_case(rnd):
@@ -116,6 +121,12 @@ def gen_case(rnd):
     if rnd.random() < 0.7:
         keys.sort()
     resids = sorted(rnd.sample(range(1, 80), L))
+    # residues sharing their number with the previous one, told apart by an insertion code (52, 52A, 52B)
+    icodes = [''] * L
+    for i in range(1, L):
+        if rnd.random() < 0.12:
+            resids[i] = resids[i - 1]
+            icodes[i] = 'ABCDEFGHIJKLMNOP'[i % 16]
     atoms = []
     ki = iter(keys)
     key = {}
@@ -148,7 +159,7 @@ def gen_case(rnd):
         for a in atoms:
             if seq[a[1]] == rname and a[2] == an and (everywhere or rnd.random() < 0.5):
                 a.append(an[0] + 'Z9')
-    out = {'resdefs': resdefs, 'seq': seq, 'resids': resids, 'atoms': atoms, 'inter': inter,
+    out = {'resdefs': resdefs, 'seq': seq, 'resids': resids, 'icodes': icodes, 'atoms': atoms, 'inter': inter,
            'tag': rnd.randrange(10 ** 9)}
     if pair:
         out['pair'] = pair
@@ -225,6 +236,8 @@ def build(case):
         key[(ri, an)] = k
         mol.add_node(k, atomname=an, resname=case['seq'][ri], resid=case['resids'][ri], chain='A', element=an[0],
                      position=np.array([(k * 7 % 13) / 13.0, (k * 5 % 11) / 11.0, (k * 3 % 7) / 7.0]))
+        if case.get('icodes') and case['icodes'][ri]:
+            mol.nodes[k]['insertion_code'] = case['icodes'][ri]
         if len(entry) > 3:
             mol.nodes[k]['atomname'] = entry[3]
             mol.nodes[k]['_old_atomname'] = an
@@ -254,7 +267,7 @@ def placements_of(case, mol):
             return d.get('_old_atomname', d['atomname']) == p and d['resname'] == rname and d['element'] == p[0]
 
         def edge_ok(g1, g2, p1, p2):
-            return mol.nodes[g1]['resid'] == mol.nodes[g2]['resid']
+            return res_id(mol, g1) == res_id(mol, g2)
         for m in match.induced_isos(mol, P, node_ok, edge_ok):
             out.append((min(m.values()), rname, dict(m)))
     if pair:
@@ -274,7 +287,7 @@ def placements_of(case, mol):
 
         def edge_ok2(g1, g2, p1, p2):
             # an edge inside one residue of the pattern must lie inside one residue of the molecule, and vice versa
-            return (mol.nodes[g1]['resid'] == mol.nodes[g2]['resid']) == (P.nodes[p1]['loc'] == P.nodes[p2]['loc'])
+            return (res_id(mol, g1) == res_id(mol, g2)) == (P.nodes[p1]['loc'] == P.nodes[p2]['loc'])
         for m in match.induced_isos(mol, P, node_ok2, edge_ok2):
             out.append((min(m.values()), '+PAIR', dict(m)))
     return out
